@@ -654,7 +654,7 @@ class FnTranslator:
                     lines.append(line + tag)
             code[b] = lines
         order = [b for b in fn.blocks if b in reach]
-        s.sunk = collections.defaultdict(list); s.sunk_names = set()
+        s.sunk = collections.defaultdict(list); s.sunk_names = set(); s.sunk_at = {}
         if s.opts.get('sink_locals') and s.loops:
             s.sink_locals(code, phis)
         body = s.emit_region(order, set(order), None, code, 1)
@@ -713,13 +713,13 @@ class FnTranslator:
                 if not hasattr(s.em, 'nondets'): s.em.nondets = collections.OrderedDict()
                 s.em.nondets[nd] = ctype[sl]
                 s.sunk[h].append('%s %s; %s %s = &%s; %s = %s();' % (ctype[sl], sl, ctype[c], c, sl, sl, nd))
-                s.sunk_names |= {c, sl}; kill.add(init_line[c])
+                s.sunk_names |= {c, sl}; s.sunk_at[c] = h; s.sunk_at[sl] = h; kill.add(init_line[c])
             else:
                 blocks = occ.get(c, set())
                 if not blocks: continue
                 h = innermost(blocks)
                 if h is None: continue
-                s.sunk[h].append('%s %s;' % (ctype[c], c)); s.sunk_names.add(c)
+                s.sunk[h].append('%s %s;' % (ctype[c], c)); s.sunk_names.add(c); s.sunk_at[c] = h
         for b, i in kill: code[b][i] = '/* sunk: ' + re.sub(r'/\*.*?\*/', '', code[b][i]).strip() + ' */'
 
     def blk(s, ref):
@@ -795,7 +795,8 @@ class FnTranslator:
                 out.append('L_%s_pre: ;' % s.blabel(b))
                 out.append(ind + 'while (1)')
                 asg = set().union(*[s.assigned[x] for x in lb]) | set().union(*[s.mentions[x] for x in lb])
-                asg = sorted(a for a in asg if a not in s.sunk_names)
+                # a sunk local stays in the frame of the loops strictly INSIDE the loop it was sunk into (it is in scope and assigned there)
+                asg = sorted(a for a in asg if a not in s.sunk_names or not (s.loops[s.sunk_at[a]] <= s.loops[b]))
                 out.append('#ifndef LOOPASG_%s__%s\n#define LOOPASG_%s__%s\n#endif' % (fname, hl, fname, hl))
                 out.append(ind + '__CPROVER_assigns(%s LOOPASG_%s__%s)' % (', '.join(asg) if asg else 'VERIF_dummy_', fname, hl))
                 out.append('#ifdef LOOP_%s__%s\nLOOP_%s__%s\n#endif' % (fname, hl, fname, hl))
